@@ -117,8 +117,15 @@ func (s *Store) Await(timeout time.Duration) error {
 			return nil
 		}
 
+		// check if the timeout has been reached (a zero or negative duration
+		// would make the following wait never time out)
+		remaining := deadline.Sub(time.Now())
+		if remaining <= 0 {
+			return ErrTimeout
+		}
+
 		// wait for next future to complete
-		err := next.Wait(deadline.Sub(time.Now()))
+		err := next.Wait(remaining)
 		if err != nil {
 			return err
 		}
